@@ -49,6 +49,18 @@ def audit(ctx):
                 continue
             problems.append('shared mutable state outside the interner mutex in %s: `%s`' % (name, tok))
             break
+    # 1c. one lock only: with a second lock the order of acquisition matters and the single-mutex argument (no deadlock
+    #     without re-entrancy) no longer applies
+    for name, text in files.items():
+        code = re.sub(r'//.*', '', text).split('#[cfg(test)]')[0]
+        locks = re.findall(r'\bMutex\s*<\s*(\w+)|\b(Condvar|parking_lot|DashMap|Semaphore|Barrier)\b|\bMutex::new', code)
+        for g in locks:
+            if g[0] == 'InternerState' and name == 'algebra.rs':
+                continue
+            if name == 'lib.rs':
+                continue
+            problems.append('a second lock / synchroniser in %s: %s' % (name, g[0] or g[1] or 'Mutex::new'))
+            break
     # 2. the state sits behind one Mutex; lock() is the only way in
     if not re.search(r'state:\s*Mutex<InternerState>', alg):
         problems.append('InternerState is not behind a Mutex')
@@ -88,7 +100,7 @@ def run(ctx):
     ctx.extra['rule'] = ('(1) audit of the lock discipline assumed by the theorem (single Mutex, state touched only in InternerGuard, no re-entrant lock, arena '
                          'reads through InternerShared::node); (2) stress: 8-16 threads race, from one barrier, to parse the same fresh markers in rotated orders, '
                          'combine, simplify, render, evaluate and compare them; all threads must produce == markers and identical observations, equal to a '
-                         'single-threaded fresh process; watchdog for deadlock, any panic counts; (3) hammer: and / or / is_disjoint of 17 marker pairs (one nested 85 parentheses deep) and re-parses of their texts computed once sequentially, then recomputed 100 000-600 000 times by each of 8 threads at once, and 2 500-40 000 times while one thread keeps the interner busy with a large is_disjoint (a 16-fold conjunction of disjunctions), every result compared with the sequential one; the audit also requires that src/marker has no shared mutable state besides the interner (no other static, atomics, cells, thread-locals, locks); this part is supporting test evidence, not proof. '
+                         'single-threaded fresh process; watchdog for deadlock, any panic counts; (3) hammer: and / or / is_disjoint of 17 marker pairs (one nested 85 parentheses deep), re-parses of their texts, and (every 32nd repetition) requires-python complexify / simplify, simplify_extras and TRUE complexified to a bound no thread has used before, computed once sequentially, then recomputed 100 000-600 000 times by each of 8 threads at once, and 2 500-40 000 times while one thread keeps the interner busy with a large is_disjoint (a 16-fold conjunction of disjunctions), every result compared with the sequential one; the audit also requires that src/marker has no shared mutable state besides the interner (no other static, atomics, cells, thread-locals, locks); this part is supporting test evidence, not proof. '
                          'non-trivial = distinct (round, marker text)')
     probs = audit(ctx)
     ctx.extra['lock_audit'] = probs or 'ok'
@@ -151,6 +163,12 @@ def run(ctx):
         # phase A: all threads on the small operations; phase B: one thread keeps the interner busy with the large check
         iters = 100000 if quick else 600000
         r = fw.batch(h, [['hammer', '8', str(iters), '240000', [S(t) for t in texts], []]], timeout=600)[0]
+        if r[0] != 'ok':
+            # deadlocked or panicked: nothing further can be learnt from this tree, and every further phase would wait for its watchdog
+            ctx.evaluations += 1
+            ctx.oracle_cases += 1
+            ctx.failure('concurrent use (hammer): %s' % dump(r)[:200], {'hammer-round': rd, 'threads': 8, 'iterations': iters, 'texts': texts})
+            break
         rb = fw.batch(h, [['hammer', '8', str(2500 if quick else 40000), '400000', [S(t) for t in texts], heavy]], timeout=900)[0]
         if r[0] == 'ok' and rb[0] == 'ok':
             r = ['ok', str(int(r[1]) + int(rb[1])), str(int(r[2]) + int(rb[2])), r[3] if r[3] != 'none' else rb[3]]
@@ -161,6 +179,7 @@ def run(ctx):
         how = {'hammer-round': rd, 'threads': 8, 'iterations': iters, 'texts': texts}
         if r[0] != 'ok':
             ctx.failure('concurrent use (hammer): %s' % dump(r)[:200], how)
+            break
         elif r[1] != '0':
             ctx.failure('%s of %s and/or results computed concurrently differ from the sequential result, e.g. pair %s' % (r[1], r[2], dump(r[3])[:200]), how)
     return fw.finish(ctx, 'make -C /verif/coq Props/C15.vo  (coqc, Print Assumptions under each theorem)')
